@@ -2,7 +2,7 @@
    particular declaration: every statement is for an arbitrary environment [D : denv], so a
    regenerated RawGen.v never touches these proofs. *)
 From FB Require Import C20.Fmt.
-From Coq Require Import Lia PeanoNat.
+From Coq Require Import Lia PeanoNat Wf_nat.
 Open Scope N_scope.
 
 Arguments N.add : simpl never.
@@ -157,8 +157,9 @@ Proof.
   - apply Hs. exact H.
   - destruct v as [|l| |]; try discriminate.
     bind_inv H. injection H as <-. rewrite (lw_concat _ _ _ Hs _ _ Ha). cbn [bind].
-    rewrite of_nat_app. destruct k as [w|e].
+    rewrite of_nat_app. destruct k as [w|e|e].
     + rewrite length_enc. reflexivity.
+    + reflexivity.
     + reflexivity.
 Qed.
 
@@ -212,7 +213,7 @@ Lemma select_nth0 D p env0 tg vars k va env :
   select D p env0 tg vars O = Ok (k, va, env) -> nth_error vars k = Some va.
 Proof. intros H. apply select_nth in H as (j & -> & Hj). exact Hj. Qed.
 
-Lemma lit_eval e m env sl : lit_of e = Some m -> ceval env sl e = Ok m.
+Lemma lit_eval D e m env sl : lit_of e = Some m -> ceval D env sl e = Ok m.
 Proof.
   destruct e as [aw ex]. unfold lit_of, ceval. cbn [ce_e ce_aw].
   destruct ex; try discriminate. intros [= ->]. reflexivity.
@@ -251,10 +252,35 @@ Proof.
   exists vs, pre. repeat split; auto. rewrite Hl. apply N2Nat.id.
 Qed.
 
-Lemma wrd_ty rd wr p env t bs v rest : wrd_spec rd wr -> bytes_ok bs ->
-  read_ty rd p env t bs = Ok (v, rest) -> exists pre, bs = pre ++ rest /\ write_ty wr t v = Ok pre.
+(* the slot-counted loop: whatever it returns was read element by element *)
+Lemma wrd_read_slots rd wr p s wide : wrd_spec rd wr -> forall k bs vs rest, bytes_ok bs ->
+  read_slots (rd p s) wide k bs = Ok (vs, rest) ->
+  exists pre, bs = pre ++ rest /\ concat_map (wr s) vs = Ok pre /\ N.of_nat k = slots_of wide vs.
 Proof.
-  intros Hs Hb H. destruct t as [s|s [w|e]]; cbn [read_ty write_ty] in *.
+  intros Hs k; induction k as [k IH] using (well_founded_induction lt_wf); intros bs vs rest Hb H.
+  destruct k as [|k']; cbn [read_slots] in H.
+  - injection H as <- <-. exists []. auto.
+  - bind_inv H. destruct a as [v bs1].
+    destruct (Hs _ _ _ _ _ Hb Ha) as (pre1 & -> & Hw).
+    pose proof (bytes_ok_app_r _ _ Hb) as Hb1.
+    destruct (wide v) eqn:Ew.
+    + destruct k' as [|k'']; [discriminate|].
+      bind_inv H. destruct a as [vs' bs2]. injection H as <- <-.
+      destruct (IH k'' ltac:(lia) _ _ _ Hb1 Ha0) as (pre2 & -> & Hc & Hk).
+      exists (pre1 ++ pre2). rewrite app_assoc. split; [reflexivity|]. split.
+      * cbn [concat_map]. rewrite Hw. cbn [bind]. rewrite Hc. reflexivity.
+      * cbn [slots_of]. unfold slots1. rewrite Ew, <- Hk. lia.
+    + bind_inv H. destruct a as [vs' bs2]. injection H as <- <-.
+      destruct (IH k' ltac:(lia) _ _ _ Hb1 Ha0) as (pre2 & -> & Hc & Hk).
+      exists (pre1 ++ pre2). rewrite app_assoc. split; [reflexivity|]. split.
+      * cbn [concat_map]. rewrite Hw. cbn [bind]. rewrite Hc. reflexivity.
+      * cbn [slots_of]. unfold slots1. rewrite Ew, <- Hk. lia.
+Qed.
+
+Lemma wrd_ty D rd wr p env t bs v rest : wrd_spec rd wr -> bytes_ok bs ->
+  read_ty D rd p env t bs = Ok (v, rest) -> exists pre, bs = pre ++ rest /\ write_ty wr t v = Ok pre.
+Proof.
+  intros Hs Hb H. destruct t as [s|s [w|e|e]]; cbn [read_ty write_ty] in *.
   - eapply Hs; eauto.
   - bind_inv H. destruct a as [n bs1].
     destruct (enc_dec _ _ _ _ Hb Ha) as (-> & Hn & Hb1).
@@ -264,12 +290,15 @@ Proof.
   - bind_inv H.
     destruct (wrd_read_vec _ _ _ _ _ _ _ _ Hs Hb H) as (l & pre & -> & -> & Hc & Hl).
     exists pre. split; [reflexivity|]. rewrite Hc. reflexivity.
+  - bind_inv H. bind_inv H. destruct a0 as [vs bs']. injection H as <- <-.
+    destruct (wrd_read_slots _ _ _ _ _ Hs _ _ _ _ Hb Ha0) as (pre & -> & Hc & _).
+    exists pre. split; [reflexivity|]. rewrite Hc. reflexivity.
 Qed.
 
-Lemma wrd_fields rd wr wenv sl : wrd_spec rd wr -> forall fs p env bs vs cs rest, bytes_ok bs ->
-  read_fields rd p env fs bs = Ok (vs, cs, rest) ->
-  consts_agree (ceval wenv sl) cs = true ->
-  exists pre, bs = pre ++ rest /\ write_fields wr (ceval wenv sl) fs vs = Ok pre.
+Lemma wrd_fields D rd wr wenv sl : wrd_spec rd wr -> forall fs p env bs vs cs rest, bytes_ok bs ->
+  read_fields D rd p env fs bs = Ok (vs, cs, rest) ->
+  consts_agree (ceval D wenv sl) cs = true ->
+  exists pre, bs = pre ++ rest /\ write_fields wr (ceval D wenv sl) fs vs = Ok pre.
 Proof.
   intros Hs fs; induction fs as [|f fs IH]; intros p env bs vs cs rest Hb H Hc; cbn [read_fields] in H.
   - injection H as <- <- <-. exists []. auto.
@@ -280,10 +309,10 @@ Proof.
       * destruct (N.eqb_spec n m) as [->|]; [|discriminate].
         destruct (IH _ _ _ _ _ _ Hb1 H Hc) as (pre & -> & Hw).
         exists (enc w m ++ pre). rewrite app_assoc. split; [reflexivity|].
-        cbn [write_fields]. rewrite (lit_eval _ _ _ _ El). cbn [bind]. rewrite Hw. reflexivity.
+        cbn [write_fields]. rewrite (lit_eval _ _ _ _ _ El). cbn [bind]. rewrite Hw. reflexivity.
       * bind_inv H. destruct a as [[vs' cs'] bs2]. injection H as <- <- <-.
         cbn [consts_agree] in Hc. apply andb_true_iff in Hc as [Hc1 Hc2].
-        destruct (ceval wenv sl e) as [m0|] eqn:Ee; [|discriminate]. apply N.eqb_eq in Hc1.
+        destruct (ceval D wenv sl e) as [m0|] eqn:Ee; [|discriminate]. apply N.eqb_eq in Hc1.
         destruct (IH _ _ _ _ _ _ Hb1 Ha0 Hc2) as (pre & -> & Hw).
         exists (enc w n ++ pre). rewrite app_assoc. split; [reflexivity|].
         cbn [write_fields]. rewrite Ee. cbn [bind]. rewrite Hw. cbn [bind].
@@ -292,7 +321,7 @@ Proof.
       destruct (IH _ _ _ _ _ _ Hb Ha0 Hc) as (pre & -> & Hw).
       exists pre. split; [reflexivity|]. cbn [write_fields]. rewrite Hw. reflexivity.
     + bind_inv H. destruct a as [v bs1]. bind_inv H. destruct a as [[vs' cs'] bs2]. injection H as <- <- <-.
-      destruct (wrd_ty _ _ _ _ _ _ _ _ Hs Hb Ha) as (pre1 & -> & Hw1).
+      destruct (wrd_ty _ _ _ _ _ _ _ _ _ Hs Hb Ha) as (pre1 & -> & Hw1).
       destruct (IH _ _ _ _ _ _ (bytes_ok_app_r _ _ Hb) Ha0 Hc) as (pre2 & -> & Hw2).
       exists (pre1 ++ pre2). rewrite app_assoc. split; [reflexivity|].
       cbn [write_fields]. rewrite Hw1. cbn [bind]. rewrite Hw2. reflexivity.
@@ -322,7 +351,7 @@ Proof.
     + bind_inv H. destruct a as [[vs cs] bs']. cbn [negb orb] in H.
       match type of H with (if ?c then _ else _) = _ => destruct c eqn:Hc; [|discriminate] end.
       injection H as <- <-.
-      destruct (wrd_fields _ _ _ _ Hs _ _ _ _ _ _ _ Hb Ha Hc) as (pre & -> & Hw).
+      destruct (wrd_fields _ _ _ _ _ Hs _ _ _ _ _ _ _ Hb Ha Hc) as (pre & -> & Hw).
       exists pre. auto.
     + bind_inv H. destruct a as [tg bs1].
       destruct (enc_dec _ _ _ _ Hb Ha) as (-> & Htg & Hb1).
@@ -332,8 +361,8 @@ Proof.
       injection H as <- <-.
       apply andb_true_iff in Hc as [Ht Hc].
       rewrite (select_nth0 _ _ _ _ _ _ _ _ Ha0).
-      destruct (wrd_fields _ _ _ _ Hs _ _ _ _ _ _ _ Hb1 Ha1 Hc) as (pre & -> & Hw).
-      match type of Ht with context [ceval ?e ?s (v_tagw va)] => destruct (ceval e s (v_tagw va)) as [m|] eqn:Em; [|discriminate] end.
+      destruct (wrd_fields _ _ _ _ _ Hs _ _ _ _ _ _ _ Hb1 Ha1 Hc) as (pre & -> & Hw).
+      match type of Ht with context [ceval D ?e ?s (v_tagw va)] => destruct (ceval D e s (v_tagw va)) as [m|] eqn:Em; [|discriminate] end.
       apply N.eqb_eq in Ht.
       exists (enc tw tg ++ pre). rewrite app_assoc. split; [reflexivity|].
       cbn [bind]. rewrite Hw. cbn [bind]. rewrite <- Ht, enc_trunc. reflexivity.
@@ -354,7 +383,7 @@ Proof.
   - bind_inv H. bind_inv H. injection H as <-. rewrite app_length, length_enc. pose proof (wbytes_pos w). lia.
   - destruct vs as [|v vs]; [discriminate|]. bind_inv H. bind_inv H. injection H as <-.
     rewrite app_length. apply orb_true_iff in He as [He|He].
-    + destruct t as [[w|n]|s [w|e]]; destruct nw; cbn [field_nonempty] in He; try discriminate.
+    + destruct t as [[w|n]|s [w|e|e]]; destruct nw; cbn [field_nonempty] in He; try discriminate.
       * cbn [write_ty] in Ha. apply wr_prim_len in Ha. lia.
       * cbn [write_ty] in Ha. destruct v; try discriminate. bind_inv Ha. injection Ha as <-.
         rewrite app_length, length_enc. pose proof (wbytes_pos w). lia.
@@ -423,11 +452,31 @@ Proof.
   rewrite Nat2N.id. rewrite (rw_read_n _ _ _ _ _ Hs _ _ _ Hc Ha). reflexivity.
 Qed.
 
+Lemma slots_of_nat wide l : exists k, slots_of wide l = N.of_nat k.
+Proof. exists (N.to_nat (slots_of wide l)). rewrite N2Nat.id. reflexivity. Qed.
+
+(* the slot-counted loop retraces the writer: given the number of indices the elements take up it
+   returns exactly these elements *)
+Lemma rw_read_slots wr rs rd p s wide : rw_spec wr rs rd -> forall l bs rest,
+  concat_map (wr s) l = Ok bs -> all_map (rs p s) l = true ->
+  read_slots (rd p s) wide (N.to_nat (slots_of wide l)) (bs ++ rest) = Ok (l, rest).
+Proof.
+  intros Hs l; induction l as [|v l IH]; intros bs rest Hc Ha; cbn [concat_map all_map slots_of] in *.
+  - injection Hc as <-. reflexivity.
+  - bind_inv Hc. bind_inv Hc. injection Hc as <-. apply andb_true_iff in Ha as [Hv Hl].
+    specialize (IH _ rest Ha1 Hl).
+    rewrite <- app_assoc. unfold slots1. destruct (wide v) eqn:Ew.
+    + replace (N.to_nat (2 + slots_of wide l)) with (S (S (N.to_nat (slots_of wide l)))) by lia.
+      cbn [read_slots]. rewrite (Hs _ _ _ _ _ Ha0 Hv). cbn [bind]. rewrite Ew, IH. reflexivity.
+    + replace (N.to_nat (1 + slots_of wide l)) with (S (N.to_nat (slots_of wide l))) by lia.
+      cbn [read_slots]. rewrite (Hs _ _ _ _ _ Ha0 Hv). cbn [bind]. rewrite Ew, IH. reflexivity.
+Qed.
+
 Lemma rw_ty D wr rs rd p renv t v bs rest : rw_spec wr rs rd ->
   (forall s v b, sty_nonempty D s = true -> wr s v = Ok b -> (1 <= length b)%nat) ->
   (forall s k, t = Vec s k -> sty_nonempty D s = true) ->
-  write_ty wr t v = Ok bs -> res_ty rs p renv t v = true ->
-  read_ty rd p renv t (bs ++ rest) = Ok (v, rest).
+  write_ty wr t v = Ok bs -> res_ty D rs p renv t v = true ->
+  read_ty D rd p renv t (bs ++ rest) = Ok (v, rest).
 Proof.
   intros Hs Hn Hwf Hw Hr. destruct t as [s|s k]; cbn [write_ty res_ty read_ty] in *.
   - apply Hs; assumption.
@@ -435,21 +484,23 @@ Proof.
     apply andb_true_iff in Hr as [Hk Hall].
     assert (Hne : forall v b, wr s v = Ok b -> (1 <= length b)%nat).
     { intros v b. apply Hn. eapply Hwf. reflexivity. }
-    destruct k as [w|e].
+    destruct k as [w|e|e].
     + rewrite <- app_assoc, dec_enc. cbn [bind].
       apply N.ltb_lt in Hk. rewrite trunc_small by exact Hk.
       eapply rw_read_vec; eassumption.
-    + destruct (ceval renv Err e) as [n|]; [|discriminate]. apply N.eqb_eq in Hk. subst n.
+    + destruct (ceval D renv Err e) as [n|]; [|discriminate]. apply N.eqb_eq in Hk. subst n.
       cbn [bind app]. eapply rw_read_vec; eassumption.
+    + destruct (ceval D renv Err e) as [n|]; [|discriminate]. apply N.eqb_eq in Hk. subst n.
+      cbn [bind app]. erewrite rw_read_slots; [reflexivity|exact Hs|exact Ha|exact Hall].
 Qed.
 
 Lemma rw_fields D wr rs rd wenv sl : rw_spec wr rs rd ->
   (forall s v b, sty_nonempty D s = true -> wr s v = Ok b -> (1 <= length b)%nat) ->
   forall fs vs p renv bs rest, forallb (field_wf D) fs = true ->
-  write_fields wr (ceval wenv sl) fs vs = Ok bs ->
-  res_fields rs (ceval wenv sl) p renv fs vs = true ->
-  exists cs, read_fields rd p renv fs (bs ++ rest) = Ok (vs, cs, rest)
-             /\ consts_agree (ceval wenv sl) cs = true.
+  write_fields wr (ceval D wenv sl) fs vs = Ok bs ->
+  res_fields D rs (ceval D wenv sl) p renv fs vs = true ->
+  exists cs, read_fields D rd p renv fs (bs ++ rest) = Ok (vs, cs, rest)
+             /\ consts_agree (ceval D wenv sl) cs = true.
 Proof.
   intros Hs Hn fs; induction fs as [|f fs IH]; intros vs p renv bs rest Hwf Hw Hr;
     cbn [write_fields res_fields read_fields forallb] in *.
@@ -460,7 +511,7 @@ Proof.
       rewrite <- app_assoc, dec_enc. cbn [bind].
       destruct (IH _ _ _ _ rest Hwf Ha0 Hr) as (cs & Hrd & Hcs).
       destruct (lit_of e) as [m|] eqn:El.
-      * rewrite (lit_eval _ _ wenv sl El) in Ha. injection Ha as <-.
+      * rewrite (lit_eval D _ _ wenv sl El) in Ha. injection Ha as <-.
         apply N.ltb_lt in Hlit. rewrite trunc_small in * by exact Hlit.
         rewrite N.eqb_refl. exists cs. auto.
       * rewrite Hrd. cbn [bind]. eexists. split; [reflexivity|].
@@ -468,7 +519,7 @@ Proof.
     + destruct vs as [|[n| | |] vs]; try discriminate.
       bind_inv Hw. bind_inv Hw. injection Hw as <-. injection Ha as <-.
       apply andb_true_iff in Hr as [He Hr].
-      destruct (ceval renv Err e) as [m|]; [|discriminate]. apply N.eqb_eq in He. subst m.
+      destruct (ceval D renv Err e) as [m|]; [|discriminate]. apply N.eqb_eq in He. subst m.
       cbn [bind app].
       destruct (IH _ _ _ _ rest Hwf Ha0 Hr) as (cs & Hrd & Hcs).
       rewrite Hrd. cbn [bind]. exists cs. auto.
@@ -528,10 +579,10 @@ Qed.
 (* ================================================================= fuel: Ok results do not depend on it *)
 Definition sl_le (a b : res N) : Prop := forall n, a = Ok n -> b = Ok n.
 
-Lemma eval_mono aw env sl sl' : sl_le sl sl' -> forall e m,
-  eval aw env sl e = Ok m -> eval aw env sl' e = Ok m.
+Lemma eval_mono D aw env sl sl' : sl_le sl sl' -> forall e m,
+  eval D aw env sl e = Ok m -> eval D aw env sl' e = Ok m.
 Proof.
-  intros Hsl e; induction e as [n|x|x| |a IHa b IHb|a IHa b IHb|a IHa b IHb]; intros m H; cbn [eval] in *;
+  intros Hsl e; induction e as [n|x|x|x elt| |a IHa b IHb|a IHa b IHb|a IHa b IHb]; intros m H; cbn [eval] in *;
     try exact H.
   - bind_inv H. rewrite (Hsl _ Ha). exact H.
   - bind_inv H. bind_inv H. rewrite (IHa _ Ha), (IHb _ Ha0). exact H.
@@ -539,7 +590,7 @@ Proof.
   - bind_inv H. bind_inv H. rewrite (IHa _ Ha), (IHb _ Ha0). exact H.
 Qed.
 
-Lemma ceval_mono env sl sl' e m : sl_le sl sl' -> ceval env sl e = Ok m -> ceval env sl' e = Ok m.
+Lemma ceval_mono D env sl sl' e m : sl_le sl sl' -> ceval D env sl e = Ok m -> ceval D env sl' e = Ok m.
 Proof. unfold ceval. intros Hs. apply eval_mono. exact Hs. Qed.
 
 Definition ext2 {A B C} (f g : A -> B -> res C) : Prop := forall a b c, f a b = Ok c -> g a b = Ok c.
@@ -624,12 +675,12 @@ Proof.
     change (write_sty D (S (S f)) (Named nm) v) with
       (match lookup D nm, v with
        | Some (DStruct fs), VS vs =>
-           write_fields (write_sty D (S f)) (ceval (bind_fields fs vs) (len_sty D (S (S f)) (Named nm) v)) fs vs
+           write_fields (write_sty D (S f)) (ceval D (bind_fields fs vs) (len_sty D (S (S f)) (Named nm) v)) fs vs
        | Some (DEnum _ tw vars _), VV k vs =>
            match nth_error vars k with
            | None => Err
            | Some va =>
-               let ev := ceval (bind_fields (v_fields va) vs) (len_sty D (S (S f)) (Named nm) v) in
+               let ev := ceval D (bind_fields (v_fields va) vs) (len_sty D (S (S f)) (Named nm) v) in
                do tg <- ev (v_tagw va);
                do body <- write_fields (write_sty D (S f)) ev (v_fields va) vs;
                Ok (enc tw tg ++ body)
@@ -641,7 +692,7 @@ Proof.
       intros e m. apply ceval_mono. exact Hsl.
     + destruct v as [| | |k vs]; try discriminate. destruct (nth_error vars k); [|discriminate].
       cbv zeta in *. bind_inv H. bind_inv H.
-      rewrite (ceval_mono _ _ _ _ _ Hsl Ha). cbn [bind].
+      rewrite (ceval_mono _ _ _ _ _ _ Hsl Ha). cbn [bind].
       erewrite write_fields_ext; [exact H|exact IH| |exact Ha0].
       intros e m. apply ceval_mono. exact Hsl.
 Qed.
@@ -657,10 +708,22 @@ Proof.
   rewrite (He _ _ Ha). cbn [bind]. rewrite (IH _ _ Ha0). exact H.
 Qed.
 
-Lemma read_ty_ext rd rd' : ext3 rd rd' -> forall p env t b r,
-  read_ty rd p env t b = Ok r -> read_ty rd' p env t b = Ok r.
+Lemma read_slots_ext (f g : list N -> res (val * list N)) wide : (forall b r, f b = Ok r -> g b = Ok r) -> forall k b r,
+  read_slots f wide k b = Ok r -> read_slots g wide k b = Ok r.
 Proof.
-  intros He p env t b r H. destruct t as [s|s [w|e]]; cbn [read_ty] in *.
+  intros He k; induction k as [k IH] using (well_founded_induction lt_wf); intros b r H.
+  destruct k as [|k']; cbn [read_slots] in *; [exact H|].
+  bind_inv H. destruct a as [v b1]. rewrite (He _ _ Ha). cbn [bind].
+  destruct (wide v).
+  - destruct k' as [|k'']; [discriminate|].
+    bind_inv H. destruct a as [vs b2]. rewrite (IH k'' ltac:(lia) _ _ Ha0). exact H.
+  - bind_inv H. destruct a as [vs b2]. rewrite (IH k' ltac:(lia) _ _ Ha0). exact H.
+Qed.
+
+Lemma read_ty_ext D rd rd' : ext3 rd rd' -> forall p env t b r,
+  read_ty D rd p env t b = Ok r -> read_ty D rd' p env t b = Ok r.
+Proof.
+  intros He p env t b r H. destruct t as [s|s [w|e|e]]; cbn [read_ty] in *.
   - apply He. exact H.
   - bind_inv H. destruct a as [n b1]. rewrite Ha. cbn [bind]. unfold read_vec in *.
     destruct (n <=? N.of_nat (length b1)); [|discriminate].
@@ -668,10 +731,12 @@ Proof.
   - bind_inv H. rewrite Ha. cbn [bind]. unfold read_vec in *.
     destruct (a <=? N.of_nat (length b)); [|discriminate].
     bind_inv H. destruct a0 as [vs b2]. rewrite (read_n_ext _ _ (He p s) _ _ _ Ha0). exact H.
+  - bind_inv H. rewrite Ha. cbn [bind]. bind_inv H. destruct a0 as [vs b2].
+    rewrite (read_slots_ext _ _ _ (He p s) _ _ _ Ha0). exact H.
 Qed.
 
-Lemma read_fields_ext rd rd' : ext3 rd rd' -> forall fs p env b r,
-  read_fields rd p env fs b = Ok r -> read_fields rd' p env fs b = Ok r.
+Lemma read_fields_ext D rd rd' : ext3 rd rd' -> forall fs p env b r,
+  read_fields D rd p env fs b = Ok r -> read_fields D rd' p env fs b = Ok r.
 Proof.
   intros He fs; induction fs as [|f fs IH]; intros p env b r H; cbn [read_fields] in *; [exact H|].
   destruct f as [x w e|x t [e|] sp].
@@ -679,7 +744,7 @@ Proof.
     + destruct (n =? m); [|discriminate]. apply IH. exact H.
     + bind_inv H. destruct a as [[vs cs] b2]. rewrite (IH _ _ _ _ Ha0). exact H.
   - bind_inv H. rewrite Ha. cbn [bind]. bind_inv H. destruct a0 as [[vs cs] b2]. rewrite (IH _ _ _ _ Ha0). exact H.
-  - bind_inv H. destruct a as [v b1]. rewrite (read_ty_ext _ _ He _ _ _ _ _ Ha). cbn [bind]. cbv zeta in *.
+  - bind_inv H. destruct a as [v b1]. rewrite (read_ty_ext _ _ _ He _ _ _ _ _ Ha). cbn [bind]. cbv zeta in *.
     bind_inv H. destruct a as [[vs cs] b2].
     match goal with |- bind ?r _ = _ => replace r with (Ok (vs, cs, b2)) by (symmetry; apply IH; exact Ha0) end.
     exact H.
@@ -703,16 +768,16 @@ Proof.
     change (read_sty D strict (S (S f)) p (Named nm) b) with
       (match lookup D nm with
        | Some (DStruct fs) =>
-           do (vs, cs, bs') <- read_fields (read_sty D strict (S f)) p [] fs b;
+           do (vs, cs, bs') <- read_fields D (read_sty D strict (S f)) p [] fs b;
            let v := VS vs in
-           if negb strict || consts_agree (ceval (bind_fields fs vs) (len_sty D (S (S f)) (Named nm) v)) cs
+           if negb strict || consts_agree (ceval D (bind_fields fs vs) (len_sty D (S (S f)) (Named nm) v)) cs
            then Ok (v, bs') else Err
        | Some (DEnum tv tw vars _) =>
            do (tg, bs1) <- dec tw b;
            do (k, va, env) <- select D p [(tv, VN tg)] tg vars O;
-           do (vs, cs, bs') <- read_fields (read_sty D strict (S f)) p env (v_fields va) bs1;
+           do (vs, cs, bs') <- read_fields D (read_sty D strict (S f)) p env (v_fields va) bs1;
            let v := VV k vs in
-           let ev := ceval (bind_fields (v_fields va) vs) (len_sty D (S (S f)) (Named nm) v) in
+           let ev := ceval D (bind_fields (v_fields va) vs) (len_sty D (S (S f)) (Named nm) v) in
            if negb strict ||
               (match ev (v_tagw va) with Ok m => N.eqb (trunc tw m) tg | Err => false end
                && consts_agree ev cs)
@@ -720,18 +785,18 @@ Proof.
        | None => Err
        end).
     destruct (lookup D nm) as [[fs|tv tw vars ft]|]; [| |discriminate].
-    + bind_inv H. destruct a as [[vs cs] b']. rewrite (read_fields_ext _ _ He _ _ _ _ _ Ha). cbn [bind]. cbv zeta in *.
+    + bind_inv H. destruct a as [[vs cs] b']. rewrite (read_fields_ext _ _ _ He _ _ _ _ _ Ha). cbn [bind]. cbv zeta in *.
       destruct strict; cbn [negb orb] in *; [|exact H].
       match type of H with (if ?c then _ else _) = _ => destruct c eqn:Hc; [|discriminate] end.
       erewrite consts_agree_ext; [exact H| |exact Hc].
       intros e m. apply ceval_mono. intros n. apply len_mono1.
     + bind_inv H. destruct a as [tg b1]. rewrite Ha. cbn [bind]. bind_inv H. destruct a as [[k va] env]. rewrite Ha0. cbn [bind].
-      bind_inv H. destruct a as [[vs cs] b']. rewrite (read_fields_ext _ _ He _ _ _ _ _ Ha1). cbn [bind]. cbv zeta in *.
+      bind_inv H. destruct a as [[vs cs] b']. rewrite (read_fields_ext _ _ _ He _ _ _ _ _ Ha1). cbn [bind]. cbv zeta in *.
       destruct strict; cbn [negb orb] in *; [|exact H].
       match type of H with (if ?c then _ else _) = _ => destruct c eqn:Hc; [|discriminate] end.
       apply andb_true_iff in Hc as [Hc1 Hc2].
-      assert (Hm : forall e m, ceval (bind_fields (v_fields va) vs) (len_sty D (S f) (Named nm) (VV k vs)) e = Ok m ->
-                               ceval (bind_fields (v_fields va) vs) (len_sty D (S (S f)) (Named nm) (VV k vs)) e = Ok m).
+      assert (Hm : forall e m, ceval D (bind_fields (v_fields va) vs) (len_sty D (S f) (Named nm) (VV k vs)) e = Ok m ->
+                               ceval D (bind_fields (v_fields va) vs) (len_sty D (S (S f)) (Named nm) (VV k vs)) e = Ok m).
       { intros e m. apply ceval_mono. intros n. apply len_mono1. }
       rewrite (consts_agree_ext _ _ Hm _ Hc2).
       match type of Hc1 with context [match ?c with _ => _ end] => destruct c as [m|] eqn:Em; [|discriminate] end.
@@ -743,9 +808,9 @@ Theorem read_mono D strict f f' p t b r : (f <= f')%nat ->
 Proof. intros Hle; induction Hle; [auto|]. intros H0. apply read_mono1. auto. Qed.
 
 (* the strict reader only refuses more *)
-Lemma strict_lax_fields rd rd' : ext3 rd rd' -> forall fs p env b r,
-  read_fields rd p env fs b = Ok r -> read_fields rd' p env fs b = Ok r.
-Proof. exact (read_fields_ext rd rd'). Qed.
+Lemma strict_lax_fields D rd rd' : ext3 rd rd' -> forall fs p env b r,
+  read_fields D rd p env fs b = Ok r -> read_fields D rd' p env fs b = Ok r.
+Proof. exact (read_fields_ext D rd rd'). Qed.
 
 Theorem strict_implies_lax D : forall f p t b r,
   read_sty D true f p t b = Ok r -> read_sty D false f p t b = Ok r.
@@ -756,10 +821,10 @@ Proof.
     assert (He : ext3 (read_sty D true f) (read_sty D false f)) by exact IH.
     cbn [read_sty] in *.
     destruct (lookup D nm) as [[fs|tv tw vars ft]|]; [| |discriminate].
-    + bind_inv H. destruct a as [[vs cs] b']. rewrite (read_fields_ext _ _ He _ _ _ _ _ Ha). cbn [bind negb orb] in *.
+    + bind_inv H. destruct a as [[vs cs] b']. rewrite (read_fields_ext _ _ _ He _ _ _ _ _ Ha). cbn [bind negb orb] in *.
       match type of H with (if ?c then _ else _) = _ => destruct c; [exact H|discriminate] end.
     + bind_inv H. destruct a as [tg b1]. rewrite Ha. cbn [bind]. bind_inv H. destruct a as [[k va] env]. rewrite Ha0. cbn [bind].
-      bind_inv H. destruct a as [[vs cs] b']. rewrite (read_fields_ext _ _ He _ _ _ _ _ Ha1). cbn [bind negb orb] in *.
+      bind_inv H. destruct a as [[vs cs] b']. rewrite (read_fields_ext _ _ _ He _ _ _ _ _ Ha1). cbn [bind negb orb] in *.
       match type of H with (if ?c then _ else _) = _ => destruct c; [exact H|discriminate] end.
 Qed.
 
@@ -813,8 +878,8 @@ Qed.
 Lemma Ok_inj {A} (a b : A) : Ok a = Ok b -> a = b.
 Proof. congruence. Qed.
 
-Lemma al_selflen env aw a (a0 : list N) :
-  ceval env (Ok (N.of_nat (wbytes W16) + N.of_nat (length (enc W32 a ++ a0)))) (CE aw (ESub ESelfLen (ELit 6))) = Ok a ->
+Lemma al_selflen D env aw a (a0 : list N) :
+  ceval D env (Ok (N.of_nat (wbytes W16) + N.of_nat (length (enc W32 a ++ a0)))) (CE aw (ESub ESelfLen (ELit 6))) = Ok a ->
   a = N.of_nat (length a0).
 Proof.
   rewrite of_nat_app, length_enc. generalize (N.of_nat (length a0)). intros n.
@@ -824,10 +889,10 @@ Proof.
   intros H. apply Ok_inj in H. lia.
 Qed.
 
-Lemma al_lin env aw c k x (l : list val) a :
+Lemma al_lin D env aw c k x (l : list val) a :
   lookup env x = Some (VL l) ->
-  ceval env Err (CE aw (EAdd (ELit c) (EMul (ELit k) (ELen x)))) = Ok a \/
-  (exists sl, ceval env sl (CE aw (EAdd (ELit c) (EMul (ELit k) (ELen x)))) = Ok a) ->
+  ceval D env Err (CE aw (EAdd (ELit c) (EMul (ELit k) (ELen x)))) = Ok a \/
+  (exists sl, ceval D env sl (CE aw (EAdd (ELit c) (EMul (ELit k) (ELen x)))) = Ok a) ->
   a = c + k * N.of_nat (length l).
 Proof.
   intros Hl [H|(sl & H)]; unfold ceval in H; cbn [ce_aw ce_e eval] in H; rewrite Hl in H; cbn [bind] in H;
@@ -852,7 +917,7 @@ Proof.
 Qed.
 
 Lemma attr_len_fields D f tw fs vs sl fb : attr_len_ok tw fs = true ->
-  write_fields (write_sty D f) (ceval (bind_fields fs vs) sl) fs vs = Ok fb ->
+  write_fields (write_sty D f) (ceval D (bind_fields fs vs) sl) fs vs = Ok fb ->
   sl = Ok (N.of_nat (wbytes tw) + N.of_nat (length fb)) ->
   exists body, fb = enc W32 (N.of_nat (length body)) ++ body.
 Proof.
@@ -865,18 +930,18 @@ Proof.
     cbn [write_fields] in Hw'. apply bind_ok in Hw' as (a & Ha & Hw'). apply bind_ok in Hw' as (a0 & Ha0 & Hw').
     apply Ok_inj in Hw'. subst fb.
     exists a0. enough (E : a = N.of_nat (length a0)) by (rewrite E; reflexivity).
-    destruct e as [m| | | |e1 e2|e1 e2|]; try discriminate.
+    destruct e as [m| | | | |e1 e2|e1 e2|]; try discriminate.
     + (* literal *)
       destruct (fixed_size rest') as [n|] eqn:Ef; [|discriminate]. apply N.eqb_eq in Hok. subst n.
-      rewrite (lit_eval (CE aw (ELit m)) m _ _ eq_refl) in Ha. apply Ok_inj in Ha. subst a.
+      rewrite (lit_eval D (CE aw (ELit m)) m _ _ eq_refl) in Ha. apply Ok_inj in Ha. subst a.
       symmetry. eapply fixed_size_len; eauto.
     + (* c + k * x.len() *)
-      destruct e1 as [c| | | | | |]; try discriminate.
-      destruct e2 as [| | | | | |e3 e4]; try discriminate.
-      destruct e3 as [k| | | | | |]; try discriminate.
-      destruct e4 as [| |x| | | |]; try discriminate.
+      destruct e1 as [c| | | | | | |]; try discriminate.
+      destruct e2 as [| | | | | | |e3 e4]; try discriminate.
+      destruct e3 as [k| | | | | | |]; try discriminate.
+      destruct e4 as [| |x| | | | |]; try discriminate.
       destruct rest' as [|[|y t nw2 sp] rest2]; try discriminate;
-        destruct t as [|[w|] [cw|]]; try discriminate;
+        destruct t as [|[w|] [cw| |]]; try discriminate;
         destruct nw2; try discriminate; destruct rest2; try discriminate.
       repeat (apply andb_true_iff in Hok as [Hok ?]).
       match goal with H : negb _ = true |- _ => apply negb_true_iff in H; rename H into Hn end.
@@ -885,14 +950,14 @@ Proof.
       destruct (al_vec _ _ _ _ _ _ _ _ _ Ha0) as (l & -> & Hlen & _).
       assert (Hx : lookup (bind_fields fs vs) x = Some (VL l)).
       { rewrite (Hlk _ Hn). cbn [bind_fields lookup]. rewrite Hok. reflexivity. }
-      rewrite (al_lin _ _ _ _ _ _ _ Hx (or_intror (ex_intro _ sl Ha))). rewrite Hlen. subst c k. reflexivity.
+      rewrite (al_lin _ _ _ _ _ _ _ _ Hx (or_intror (ex_intro _ sl Ha))). rewrite Hlen. subst c k. reflexivity.
     + (* this._len() - 6 *)
-      destruct e1; try discriminate. destruct e2 as [six| | | | | |]; try discriminate.
+      destruct e1; try discriminate. destruct e2 as [six| | | | | | |]; try discriminate.
       apply andb_true_iff in Hok as [Hsix Hok]. apply N.eqb_eq in Hsix. subst six.
       destruct tw; try discriminate.
       rewrite Hsl in Ha. eapply al_selflen. exact Ha.
   - (* no const: a u32-counted vector of bytes is the whole rest *)
-    destruct t as [|[[| |]|] [[| |]|]]; try discriminate.
+    destruct t as [|[[| |]|] [[| |]| |]]; try discriminate.
     destruct nw; try discriminate. destruct rest'; try discriminate.
     destruct (al_vec _ _ _ _ _ _ _ _ _ Hw') as (l & _ & _ & body & -> & Hb).
     exists body. replace (N.of_nat (length body)) with (N.of_nat (length l)); [reflexivity|].
